@@ -44,11 +44,21 @@ META = {
     "level_note": "Trusted: the in-process executor (C30/C31), vf/session.py.",
 }
 PLAN = {
-    "quick": {"shards": 16, "examples": 480, "timeout": 3000},
-    "thorough": {"shards": 16, "examples": 16000, "timeout": 3000},
+    "quick": {"shards": 16, "examples": 480, "timeout": 3000, "time_budget": 420},
+    "thorough": {"shards": 16, "examples": 16000, "timeout": 3000, "time_budget": 2400},
 }
 
 QUERIES = ["fitness", "fitness_for", "is_covered", "coverage", "coverage_for"]
+
+
+def shard(ctx) -> None:
+    """Default driver + a wall-clock budget for case *generation* (never for a verdict): on an overloaded machine the
+    shard stops drawing new cases after ``time_budget`` seconds and says so (``case-budget-cut-by-time`` in the evidence)
+    instead of running into the runner's hard limit."""
+    from vf.hyp import run_cases
+
+    per = max(1, int(ctx.params["examples"]) // ctx.nshards)
+    run_cases(ctx, strategy(ctx), evaluate, per, time_budget=ctx.params.get("time_budget"))
 
 
 def strategy(ctx) -> st.SearchStrategy:
